@@ -43,7 +43,9 @@ REQUIRED_MONITORS = ['boundary:typing', 'boundary:sharing', 'trigger',
 
 TRIGGERS = {
     'well': [('the Johnston wellbore', 'wellbore'),
-             ('the Smith #1 well', 'well')],
+             ('the Smith #1 well', 'well'),
+             ('all wells located thereon', 'wells'),
+             ('the existing wellbores', 'wellbores')],
     'depth': [('from the surface to the base of the Bakken', 'surface'),
               ('all depths below 5000 feet', 'depths'),
               ('the Three Forks formation', 'formation'),
@@ -173,6 +175,17 @@ def run_typing(case, ctx, rep, pytrs):
                 judge_description(d, d.tracts, case, ctx,
                                   'after 3 x parse_tracts')
                 judge_sharing(d, d.tracts, case, ctx, 'after 3 x parse_tracts')
+                # A parse that is not committed leaves the flags in place.
+                before = (sorted(map(str, d.w_flags)), sorted(map(str, d.e_flags)))
+                d.parse(commit=False)
+                after = (sorted(map(str, d.w_flags)), sorted(map(str, d.e_flags)))
+                if before != after:
+                    ctx.violation(
+                        'flags-changed-by-uncommitted-parse', case,
+                        f"parse(commit=False) changed the description's "
+                        f"flags from {before} to {after}", dedup='nc')
+                judge_description(d, d.tracts, case, ctx,
+                                  'after parse(commit=False)')
                 # Standalone Tract.
                 t = pytrs.Tract(text, config=cfg, parse_qq=True)
                 why = holder_problem(t, 'Tract')
